@@ -175,4 +175,44 @@ def ZEntry.OK (crc32 : Bytes → Nat) (inflate : Bytes → Option Bytes) (z : ZE
   z.name.length < 256 ^ 2 ∧ z.lextra.length < 256 ^ 2 ∧ z.cextra.length < 256 ^ 2 ∧
   z.stored.length < 256 ^ 4 - 1 ∧ z.content.length < 256 ^ 4 - 1
 
+/-! ## the archive must tile the file: `_open_archive` of `dimod/constrained/constrained.py` (round-7 repair)
+
+`zipfile` locates an archive from the END of the file, so in a truncated file it finds an end record spelled by the
+payload.  The repaired CQM loader therefore walks the members in the order of their (shifted) header offsets from the
+position where the header ended: each must start where the previous one stopped (local header 30 bytes + the name and
+extra lengths read from the LOCAL header + the directory's `compress_size`), and the last must stop at `start_dir`. -/
+
+/-- `sorted(zf.infolist(), key=lambda info: info.header_offset)` (stable) -/
+def insertByOffset (i : CDInfo) : List CDInfo → List CDInfo
+  | [] => [i]
+  | j :: t => if i.offset ≤ j.offset then i :: j :: t else j :: insertByOffset i t
+
+def sortByOffset : List CDInfo → List CDInfo
+  | [] => []
+  | i :: t => insertByOffset i (sortByOffset t)
+
+/-- the walk: `pos` after the last member, or `none` (→ `ValueError`) -/
+def tilesFrom (file : Bytes) (startDir offsetCd : Nat) : Nat → List CDInfo → Option Nat
+  | pos, [] => some pos
+  | pos, i :: t =>
+    if i.offset + startDir < offsetCd then none          -- seek to a negative position
+    else
+      let lengths := (file.drop (i.offset + startDir - offsetCd + 26)).take 4
+      if i.offset + startDir - offsetCd ≠ pos ∨ lengths.length ≠ 4 then none
+      else tilesFrom file startDir offsetCd (pos + 30 + leNat (lengths.take 2) + leNat (lengths.drop 2) + i.csize) t
+
+/-- `_open_archive(file_like)` with `file_like.tell() = start`, then every member -/
+def openTiled (crc32 : Bytes → Nat) (inflate : Bytes → Option Bytes) (start : Nat) (file : Bytes) : Option (List (Bytes × Bytes)) :=
+  match endRecData file with
+  | none => none
+  | some r =>
+    match r.startDir with
+    | none => none
+    | some sd =>
+      match parseCD (r.sizeCd + 1) r.sizeCd ((file.drop sd).take r.sizeCd) with
+      | none => none
+      | some infos =>
+        if tilesFrom file sd r.offsetCd start (sortByOffset infos) = some sd then readMembers crc32 inflate file sd r.offsetCd infos
+        else none
+
 end FileFmt
